@@ -225,6 +225,7 @@ type Config struct {
 	NoRace     bool
 	TraceSteps bool // record a step trace into the log (replay mode)
 	SpinLimit  int  // visible operations at one virtual instant after which the spin rule advances the clock
+	StmtPoints bool // statement-level scheduling points in the codec packages (StmtPoint) are active
 }
 
 func (c *Config) defaults() {
@@ -1266,6 +1267,17 @@ func Now() Duration {
 // Yield is an explicit scheduling point.
 func Yield() {
 	if inert() {
+		return
+	}
+	S.yield(&op{kind: opYield})
+}
+
+// StmtPoint is the statement-level scheduling point mcgen puts before every statement of the codec
+// packages. It is inactive unless the scenario asks for it (Config.StmtPoints): lock-level points
+// suffice where the race detector sees every shared access, which it does not for package-level
+// buffers reached through a local alias (text := scratch[:0] ... unlock ... string(text)).
+func StmtPoint() {
+	if S == nil || S.cfg == nil || !S.cfg.StmtPoints || inert() {
 		return
 	}
 	S.yield(&op{kind: opYield})
